@@ -9,7 +9,7 @@ HOOK_COMMITS = ["a1e4d44"]
 NOT_APPLICABLE = {}
 
 # properties whose check has been reviewed and verified on the unchanged tree; only these go into MANIFEST.json
-CLAIMED = ["C01", "C02", "C04", "C07", "C08", "C11", "C13", "C14", "C16", "C18"]
+CLAIMED = ["C01", "C02", "C04", "C06", "C07", "C08", "C11", "C12", "C13", "C14", "C16", "C18"]
 
 CHECKS = {
     "C13": dict(
@@ -231,8 +231,8 @@ CHECKS = {
                      "OffsetCommit is sent with generation -1 and no member id (simple consumer)", "SeekDontCheck is combined only with SeekAbsolute and SeekCurrent, as documented",
                      "what a failed partition's own entry carries besides Error is not judged; after an injected fault on a Conn, a later error on the same Conn is inconclusive (wrong values are not)"],
         units=[
-            dict(run="TestConn", checks_quick=1500, checks_thorough=30000, shards_quick=2, shards_thorough=8, timeout=1200),
-            dict(run="TestClient", checks_quick=700, checks_thorough=12000, shards_quick=4, shards_thorough=8, timeout=1500),
+            dict(run="TestConn", checks_quick=9000, checks_thorough=100000, shards_quick=2, shards_thorough=8, timeout=1500),
+            dict(run="TestClient", checks_quick=3500, checks_thorough=50000, shards_quick=4, shards_thorough=8, timeout=1800),
         ],
     ),
     "C20": dict(
@@ -289,6 +289,20 @@ CHECKS = {
             dict(run="TestMutatedSets", checks_quick=5000, checks_thorough=200000, shards_thorough=4, timeout=1500),
             dict(run="TestPool", build="race", tier="thorough", checks_thorough=2500, timeout=1200),
             dict(run="FuzzRecordSetReadFrom", fuzz=True, tier="thorough", fuzztime_thorough="120s", timeout=400),
+        ],
+    ),
+    "C06": dict(
+        pkg="props/c06", level="exploration",
+        technique="property-based testing (rapid) of generated concurrent programs with payload-tagged requests; adversarial response timing from the fake broker; schedule-point yields",
+        level_text=("2-8 goroutines share one Conn (or 2-12 share one Transport to 1-3 brokers); every call asks for something only it asks for (a unique timestamp, topic, group, key, record value, byte limit) and the fake broker derives the answer from that tag. "
+                    "Responses are delayed, dribbled byte by byte, held back while other calls proceed, cut or dropped; transport calls are cancelled at generated moments, idle connections expire, Conn deadlines fire; "
+                    "schedule points inside waitResponse / doRequest / conn.run add yields. Oracle: every call returns an error or the answer carrying its own tag; produce acknowledgements are checked against the log."),
+        level_note="interleavings are sampled; a cross-talk that needs a specific interleaving may be missed in one run",
+        rule=("case = (mode, goroutines x tagged calls with per-call broker fault and cancellation point, deadlines, schedule-point yields); non-trivial = >= 2 goroutines and at least one fault or cancellation; distinct by (mode, shape, fault multiset, labels)."),
+        assumptions=["the fake answers requests of one connection in request order, as Kafka guarantees"],
+        units=[
+            dict(run="TestConnCrossTalk", checks_quick=300, checks_thorough=2000, shards_quick=2, shards_thorough=8),
+            dict(run="TestTransportCrossTalk", checks_quick=300, checks_thorough=2000, shards_quick=2, shards_thorough=8),
         ],
     ),
 }
